@@ -173,7 +173,7 @@ def compare_class(want, got, path, out):
         out.append((obs, "%s: %s: %s expected %s, got %s" % (how or classify(field, w, g, comp, None), path, field, json.dumps(w), json.dumps(g))))
     if want["name"] != got["name"]:
         bad("class.name", "name", want["name"], got["name"])
-    if want["comment"] != got["comment"]:
+    if got["comment"] not in render_class.comment_readings(want["comment"]):
         bad("class.comment", "comment", want["comment"], got["comment"])
     wn = [c["name"] for c in want["comps"]]
     gn = [c["name"] for c in got["comps"]]
@@ -183,8 +183,9 @@ def compare_class(want, got, path, out):
         for w, g in zip(want["comps"], got["comps"]):
             p = "%s.%s" % (path, w["name"])
             for f in ("type", "prefixes", "dims", "comment", "mods"):
-                if w[f] != g[f]:
-                    out.append(("component." + f, "%s: %s: %s expected %s, got %s" % (classify(f, w[f], g[f], w, None), p, f, json.dumps(w[f]), json.dumps(g[f]))))
+                if (g[f] not in render_class.comment_readings(w[f])) if f == "comment" else (w[f] != g[f]):
+                    shown = sorted(set(render_class.comment_readings(w[f]))) if f == "comment" and "~" in w[f] else w[f]
+                    out.append(("component." + f, "%s: %s: %s expected %s, got %s" % (classify(f, w[f], g[f], w, None), p, f, json.dumps(shown), json.dumps(g[f]))))
             if not vis_ok(w["vis"], g["vis"]):
                 out.append(("component.visibility", "%s: %s: declared in a %s section, got %s" % (classify("vis", w["vis"], g["vis"], w, None), p,
                                                                                                  "leading unnamed" if w["vis"] == "first" else w["vis"], g["vis"])))
@@ -382,7 +383,7 @@ def run(ctx):
 
     # vacuity: every callback of the machine occurs, every family / feature is present
     feats = {t for p in progs for t in p["tags"]}
-    need = {"family:clause", "family:sections", "family:struct", "family:dup", "multi-keyword-prefix", "clause-and-declarator-dims",
+    need = {"family:clause", "family:sections", "family:struct", "family:dup", "family:comments", "multi-keyword-prefix", "clause-and-declarator-dims",
             "multi-declarator", "repeated-public", "repeated-protected", "comment-concatenation", "import-list-3", "duplicate"}
     if not need <= feats:
         raise MachineryError("vacuous corpus: missing features %s" % sorted(need - feats))
@@ -427,6 +428,7 @@ def run(ctx):
     if not asbuilt_violates:
         ctx.note_drift("as-built switches no longer violate the property in TLC")
     ctx.assumptions += ["the unnamed leading section may be labelled private or public",
+                        "a comment containing escaped quotes may be stored as written (backslash-quote) or resolved (quote); in the spec's comment texts ~ stands for an escaped quote",
                         "visibility of extends clauses and sharing of dimension SUB-lists are recorded as drift, not as violations (the property names neither)",
                         "modification and subscript values are integer literals or simple names"]
     return {"exhaustive": True, "evaluations": len(progs),
